@@ -579,3 +579,10 @@ class StrSub(str):
 class TupSub(tuple):
   pass
 
+
+class ListSub(list):
+  """A list subclass: not traversed by daglish, handed to callables as it is."""
+
+  def marker(self):
+    return 'ListSub'
+
